@@ -75,8 +75,16 @@ def main():
             if rc is None and time.time() - started > deadline_each:
                 p.kill()
                 rc = p.wait()
+                # a time limit is "inconclusive", never a violation: keep what the shard had finished
+                try:
+                    with open(out + ".partial") as f:
+                        st = json.load(f)
+                    st["timed_out"] = True
+                except Exception:  # noqa: BLE001
+                    st = {"harness_error": "shard timed out before its first partial result (inconclusive, not a violation)"}
                 with open(out, "w") as f:
-                    json.dump({"harness_error": "shard timed out (inconclusive, not a violation)"}, f)
+                    json.dump(st, f)
+                rc = 0 if st.get("timed_out") else rc
             if rc is not None:
                 log.close()
                 finished.append((i, rc, out))
@@ -93,6 +101,7 @@ def main():
         "metrics": {},
     }
     harness_errors = []
+    timed_out = []
     for i, rc, out in finished:
         try:
             with open(out) as f:
@@ -106,6 +115,10 @@ def main():
             keep = [ln for ln in tb.splitlines() if ln.startswith("  File \"/verif") or ln.startswith("  File \"/repo") or (ln and not ln.startswith(" "))]
             harness_errors.append(f"shard {i} rc={rc}:\n" + "\n".join(keep[-14:]))
             continue
+        if st.get("timed_out"):
+            timed_out.append(i)
+            if len(timed_out) == 1:
+                print(f"  shard {i} was working on (or had just finished) this case when it was stopped: {common.jdump(st.get('last_case'))[:600]}")
         merged["evaluations"] += st["evaluations"]
         merged["nontrivial"].update(st["nontrivial_hashes"])
         for k, v in st["labels"].items():
@@ -167,6 +180,10 @@ def main():
     max_inc = getattr(prop, "MAX_INCONCLUSIVE", 0.5)
     if merged["evaluations"] and n_inc / merged["evaluations"] > max_inc:
         problems.append(f"inconclusive fraction {n_inc}/{merged['evaluations']} > {max_inc}")
+    if timed_out:
+        print(f"  time limit: shards {timed_out} were stopped after {deadline_each:.0f}s; their finished cases are counted, the rest is inconclusive")
+        if len(timed_out) > max(1, nshards // 4):
+            problems.append(f"{len(timed_out)} of {nshards} shards ran into the time limit")
     if total >= 16:
         for lab in getattr(prop, "REQUIRED_LABELS", []):
             if merged["labels"].get(lab, 0) == 0:
@@ -190,6 +207,7 @@ def main():
             "worst_observed": merged["metrics"],
             "known_finding_hits": known_hits,
             "shards": nshards,
+            "shards_stopped_by_time_limit": len(timed_out),
         },
         "assumptions": list(getattr(prop, "ASSUMPTIONS", [])),
         "wall_s": round(wall, 2),
